@@ -294,9 +294,11 @@ class C02(WithEL):
                  "defaultRange": fbits(1.0e6)}
     profile = {"w": {"setTimer": 5, "cancelTimer": 0, "send": 3, "broadcast": 2, "goto": 0, "setSpeed": 0,
                      "setRange": 0, "gotoGeo": 0}}
-    drive = {"mode": "start"}
+    drive = None       # blocking start, or stepped (then an external controller may act between steps)
 
     def tweak(self, r, scn):
+        if scn["drive"]["mode"] == "steps":
+            scn["drive"]["n"] = r.choice([400, 400, 60])      # usually enough to run to exhaustion
         return scn
 
     def generate(self, seed, tier):
